@@ -116,5 +116,20 @@ def run(R, env):
     R.ob("C09.R3", "one-constructor", len(ctors) == 1, "ProtocolChainConfig constructed (outside migrations) in %s" % [b.key for b, _ in ctors], fn="staking::state::ProtocolChainConfig")
     for b, t in ctors:
         v = agg_field(t, "ibc_channel_id")
-        R.ob("C09.R3", "channel-copied-from-validated-input", v is not None and v[0] == "field" and v[2] == "ibc_channel_id" and v[1][0] == "param", "ibc_channel_id <- %s" % fmt(v or ("none",))[:100], fn=b.key)
-        C14.channel_checks(R, prog, b, "C09.R3")
+        raw = v is not None and v[0] == "field" and v[2] == "ibc_channel_id" and v[1][0] == "param"
+        hb = None
+        if not raw and v is not None and v[0] == "payload":
+            # a dedicated channel validator applied to the input field, returning its input
+            hc = shared.unwrap_payload(v)
+            hb = shared._body_of_call(prog, hc) if hc[0] == "call" else None
+            if not (hb is not None and len(hc[2]) == 1 and hc[2][0][0] == "field" and hc[2][0][2] == "ibc_channel_id" and hc[2][0][1][0] == "param"):
+                hb = None
+            if hb is not None:
+                oks = [e for e in exits(Ctx(hb)) if e["kind"] == "ok"]
+                if not (oks and all(e["term"][3][0][2][0] == "param" and e["term"][3][0][2][1] == 1 for e in oks)):
+                    hb = None
+        R.ob("C09.R3", "channel-copied-from-validated-input", raw or hb is not None, "ibc_channel_id <- %s" % fmt(v or ("none",))[:100], fn=b.key)
+        if hb is not None:
+            C14.channel_checks(R, prog, hb, "C09.R3", src=lambda x: x[0] == "param" and x[1] == 1)
+        else:
+            C14.channel_checks(R, prog, b, "C09.R3")
